@@ -27,12 +27,22 @@ for k in sorted(by):
     out.append(f"| {k} | {', '.join(by[k])} |")
 out.append("\n**Independently seeded changes** (`seeded/<ID>/`: written by fresh sub-agents that saw only the property text and a scratch worktree; "
            "each confirmed by the coordinator: demo passes without / fails with the change, related repository tests pass with it):\n")
-out.append("| property | files changed | caught by | note |\n|---|---|---|---|")
+out.append("| seed | files changed | what was changed (from the seeder's notes) | caught by | note |\n|---|---|---|---|---|")
 for f in sorted(glob.glob(f"{ROOT}/seeded/*/meta.json")):
     m = json.load(open(f))
     tier = "quick" if m.get("check_quick_violation_lines") else ("thorough" if str(m.get("check_thorough_violation_lines")) not in ("-", "0") else "MISSED")
     note = m.get("note", "")
-    out.append(f"| {m['property']} | {' '.join(m['files_changed'])} | {m.get('caught_by', m['property'])} {tier} | {note} |")
+    sd = os.path.basename(os.path.dirname(f))
+    what = ""
+    try:
+        for ln in open(os.path.join(os.path.dirname(f), "notes.md")):
+            ln = ln.strip().lstrip("-*# ").strip()
+            if len(ln) > 40 and not ln.lower().startswith("seed"):
+                what = ln.replace("|", "/")[:230]
+                break
+    except OSError:
+        pass
+    out.append(f"| {sd} | {' '.join(m['files_changed'])} | {what} | {m.get('caught_by', m['property'])} {tier} | {note} |")
 out.append("\n### 11.6 Per-check summary (from the check modules and the last committed evidence files)\n")
 out.append("| id | engine | level | deciding monitors (REQUIRED counters) | last evidence: tier / evaluations / distinct non-trivial / wall s |\n|---|---|---|---|---|")
 import importlib, sys
